@@ -24,6 +24,18 @@ theorem unsafe_mutates (p : Policy) (hs : p.Safe = false) : ∃ ops, ¬ Immutabl
       · exact ⟨[.userNew 5, .load 0, .step 1], by rw [← immutableB_iff]; decide⟩
       · simp [Policy.Safe] at hs
 
+/-- the two together: a site keeps every held dict intact on every history IF AND ONLY IF its policy is safe. -/
+theorem immutable_iff_safe (p : Policy) :
+    (∀ v0 ops, Immutable (run p (init v0) ops)) ↔ p.Safe = true := by
+  constructor
+  · intro h
+    cases hs : p.Safe
+    · obtain ⟨ops, hn⟩ := unsafe_mutates p hs
+      exact absurd (h 0 ops) hn
+    · rfl
+  · intro hs v0 ops
+    exact immutable_of_safe p hs v0 ops
+
 /-- C08 (same continuation every time): in every reachable state of a safe policy, loading a dict the user holds makes the
 component continue from the content the dict had when it was handed over — however often and whenever it is loaded. -/
 theorem load_same_continuation (p : Policy) (hs : p.Safe = true) (v0 : Val) (ops : List Op) (h : Nat) (e : Addr × Val)
